@@ -823,3 +823,36 @@ TABLE['re.Pattern.match'] = lambda E, a, k, n: _re_exec(E, a, k, n, 'match')
 TABLE['re.Pattern.search'] = lambda E, a, k, n: _re_exec(E, a, k, n, 'search')
 for _n in ('group', 'start', 'end', 'groups', 'span'):
     TABLE['re.Match.' + _n] = _match_method(_n)
+
+
+def bytes_decode(E, args, kwargs, node):
+    """bytes.decode(encoding): an uninterpreted function of (bytes value, encoding); may raise UnicodeDecodeError"""
+    b = args[0]
+    enc = args[1] if len(args) > 1 else kwargs.get('encoding', VC('utf-8'))
+    E.lib_used.add('bytes.decode(encoding): uninterpreted function decode(b, encoding) -> str; may raise UnicodeDecodeError')
+    E.trace.append(('decode', b, enc))
+    if not E.spec_mode and E.decide(2, 'decode raises') == 1:
+        _raise('ValueError', 'UnicodeDecodeError')
+    f = z3.Function('decode', Val, Val, z3.StringSort())
+    return VS(f(E.to_val(b), E.to_val(enc)))
+
+
+TABLE['bytes.decode'] = bytes_decode
+
+
+def bi_all_any(is_all):
+    def f(E, args, kwargs, node):
+        items = iter_items(E, args[0]) if not (isinstance(args[0], VRef) and isinstance(E.heap[args[0].addr], HList)
+                                               and E.heap[args[0].addr].base is None) else E.heap[args[0].addr].items
+        for x in items:
+            t = E.truth(x, 'all/any')
+            if is_all and not t:
+                return FALSE
+            if not is_all and t:
+                return TRUE
+        return TRUE if is_all else FALSE
+    return f
+
+
+TABLE['all'] = bi_all_any(True)
+TABLE['any'] = bi_all_any(False)
